@@ -10,6 +10,7 @@ Abstract state  (frames, F, rem, hist, hyps):
 Numbers are ('n', 'abs', k) = k, ('n', 'rel', k) = F + k, ('n', 'len', k) = len(T) + k; comparisons that the bounds do not decide
 fork on rem.  Every top-level return is handed, with its state, to a claim function; a cycle of states without consumption of input
 is reported as possible non-termination.  Nothing is executed: the MIR comes from the facts of the current tree."""
+import re
 from collections import deque
 
 CAP = 24
@@ -497,6 +498,16 @@ class Machine:
                 return UNIT
             if op.get('fn'):
                 return ('fnitem', op['fn']['path'])
+            m = re.search(r'::promoted\[(\d+)\]$', (op.get('text') or '').strip())
+            if m:
+                # a promoted constant of the current function that the compiler could not evaluate generically (trait default methods):
+                # its body is dumped as <fn>::promoted[i] and is `_1 = const X; _0 = &_1`
+                pb = self.bodies.get(f'{st[0][-1][0]}::promoted[{m.group(1)}]')
+                if pb is not None:
+                    for bl in pb['blocks']:
+                        for s_ in bl['stmts']:
+                            if s_['k'] == 'assign' and s_['rv']['k'] == 'use' and s_['rv']['op']['k'] == 'const' and s_['rv']['op'].get('bytes') is not None:
+                                return ('lit', bytes(s_['rv']['op']['bytes']))
             return ('constref', op['text'])
         raise Unsupported(op['k'])
 
